@@ -55,6 +55,7 @@ QUICK = [
     ("TP", dict(T=2)),  # the admitted restricted-state set changes between periods
     ("TP", dict(T=3)),
     ("TQ", dict(T=2)),
+    ("TR", dict(T=2)),  # two filters (state+choice, choice+choice)
 ]
 THOROUGH = QUICK + [
     ("TA", dict(T=4)),
